@@ -661,3 +661,192 @@ Proof.
     specialize (TR (x0 :: x') (prefixes_aux_in (x0 :: x') [] s ltac:(discriminate) Hs)).
     unfold is_dir in TR. destruct (lookup f (x0 :: x')) as [[b|]|]; try discriminate. reflexivity.
 Qed.
+
+(* ---------- directories: a failed apply never removes a directory that existed before ---------- *)
+Lemma revert_one_dirs f0 f e : fs_wf f -> tree f0 -> dirs_le f0 f ->
+  (forall b, snd e = Some b -> lookup f0 (ekey e) = Some (File b)) ->
+  fs_wf (revert_one true [] f e) /\ dirs_le f0 (revert_one true [] f e).
+Proof.
+  intros W T0 D SM. destruct e as [raw [b|]]; unfold revert_one, tg, ekey in *; cbn [fst snd] in *.
+  - specialize (SM b eq_refl).
+    assert (NOTUNDER : forall q s, lookup f0 q = Some Dir -> q <> comps raw ++ s).
+    { intros q s L E. subst q. destruct s as [|s0 s]; [rewrite app_nil_r in L; congruence|].
+      assert (lookup f0 (comps raw) = Some Dir) by (eapply T0; [exact L|discriminate]). congruence. }
+    set (f1 := os_prune_dirs f (mk_tgt [] raw)).
+    assert (P1 : fs_wf f1 /\ dirs_le f0 f1).
+    { unfold f1, os_prune_dirs. destruct (os_is_dir f (mk_tgt [] raw)) eqn:ID; [|split; assumption].
+      cbn [mk_tgt t_path t_base t_comps app].
+      destruct (comps raw) as [|c k] eqn:K; [cbn [prune_dirs]; split; assumption|]. rewrite <- K in *.
+      assert (KN : comps raw <> []) by (rewrite K; discriminate).
+      destruct (prune_dirs_spec f (comps raw) W KN) as [W1 [_ [DK _]]]. split; [exact W1|].
+      intros q L. apply DK; [apply D; exact L|]. intros s. apply NOTUNDER. exact L. }
+    destruct P1 as [W1 D1].
+    destruct (mk_parent_dirs f1 (mk_tgt [] raw)) as [f2 r] eqn:MK. cbn [fst].
+    apply mk_parent_dirs_spec in MK; [|exact W1]. destruct MK as [W2 E2].
+    assert (D2 : dirs_le f0 f2) by (eapply dirs_le_trans; [exact D1|apply ext_dirs; exact E2]).
+    destruct (os_write f2 (mk_tgt [] raw) b) as [f3|err] eqn:WR; cbn [ign]; [|split; assumption].
+    apply os_write_ok in WR. destruct WR as [[_ [_ [_ KN]]] [PD [L ->]]].
+    split; [apply wf_set_file; assumption|].
+    intros q LQ. rewrite lookup_set_other; [apply D2; exact LQ|exact KN|]. intros X. subst q. congruence.
+  - destruct (os_remove_file f (mk_tgt [] raw)) as [g|err] eqn:RM; cbn [ign]; [|split; assumption].
+    apply os_remove_ok in RM. destruct RM as [[_ [_ [_ KN]]] [_ [[b L] ->]]].
+    split; [eapply wf_unset_file; eassumption|].
+    eapply dirs_le_trans; [exact D|eapply dirs_le_unset_file; eassumption].
+Qed.
+
+Definition somes_in (f0 : fs) (u : list entry) : Prop :=
+  forall raw b, In (raw, Some b) u -> lookup f0 (comps raw) = Some (File b).
+
+Lemma revert_dirs f0 : tree f0 -> forall u f, fs_wf f -> dirs_le f0 f -> somes_in f0 u ->
+  dirs_le f0 (revert true [] f u).
+Proof.
+  intros T0. induction u as [|e u IH] using rev_ind; intros f W D SM; [exact D|].
+  rewrite revert_snoc.
+  destruct (revert_one_dirs f0 f e W T0 D) as [W' D'].
+  { intros b E. destruct e as [raw v]. cbn [snd] in E. subst v. apply SM. apply in_or_app. right. left. reflexivity. }
+  apply IH; [exact W'|exact D'|]. intros raw b I. apply SM. apply in_or_app. left. exact I.
+Qed.
+
+(* one operation: the tree stays well-formed, no directory disappears, and every newly recorded
+   "was a file" entry holds the file's current content at a key not seen before *)
+Lemma exec_shape f u o s' r : fs_wf f -> exec [] {| s_fs := f; s_undo := u |} o = (s', r) ->
+  fs_wf (s_fs s') /\ dirs_le f (s_fs s') /\
+  exists new, s_undo s' = u ++ new /\
+    forall raw b, In (raw, Some b) new -> ~ In (comps raw) (keys u) /\ lookup f (comps raw) = Some (File b).
+Proof.
+  intros W.
+  assert (TRIV : fs_wf f /\ dirs_le f f /\ exists new, u = u ++ new /\
+            forall raw b, In (raw, Some b) new -> ~ In (comps raw) (keys u) /\ lookup f (comps raw) = Some (File b)).
+  { split; [exact W|]. split; [apply dirs_le_refl|]. exists []. split; [rewrite app_nil_r; reflexivity|intros ? ? []]. }
+  assert (NEW : forall raw u1, undo_shape f u raw u1 -> exists new, u1 = u ++ new /\
+            forall raw' b, In (raw', Some b) new -> ~ In (comps raw') (keys u) /\ lookup f (comps raw') = Some (File b)).
+  { intros raw u1 [[_ ->]|[NI [[b [RD ->]]|[_ ->]]]].
+    - exists []. split; [rewrite app_nil_r; reflexivity|intros ? ? []].
+    - exists [(raw, Some b)]. split; [reflexivity|]. intros raw' b' [E|[]]. inversion E; subst.
+      apply os_read_ok in RD. destruct RD as [_ [_ L]]. split; assumption.
+    - exists [(raw, None)]. split; [reflexivity|]. intros raw' b' [E|[]]. discriminate. }
+  assert (NEW2 : forall f2 u1 raw u3,
+            (exists new, u1 = u ++ new /\ forall raw' b, In (raw', Some b) new -> ~ In (comps raw') (keys u) /\ lookup f (comps raw') = Some (File b)) ->
+            os_exists f2 (mk_tgt [] raw) = false -> undo_shape f2 u1 raw u3 ->
+            exists new, u3 = u ++ new /\ forall raw' b, In (raw', Some b) new -> ~ In (comps raw') (keys u) /\ lookup f (comps raw') = Some (File b)).
+  { intros f2 u1 raw u3 [new [-> HN]] X SH. destruct (shape_none _ _ _ _ X SH) as [[_ ->]|[_ ->]].
+    - exists new. split; [reflexivity|exact HN].
+    - exists (new ++ [(raw, None)]). split; [rewrite app_assoc; reflexivity|].
+      intros raw' b I. apply in_app_or in I. destruct I as [I|[E|[]]]; [apply HN; exact I|discriminate]. }
+  destruct o as [p content|p|p mv hs]; cbn [exec]; unfold tg; cbn [s_fs s_undo].
+  - destruct (os_exists f (mk_tgt [] p)) eqn:X; [intros H; inversion H; subst; exact TRIV|].
+    destruct (record_undo [] _ p) as [s1|e] eqn:RU; [|intros H; inversion H; subst; exact TRIV].
+    apply record_undo_cases in RU. destruct RU as [F1 U1]. destruct s1 as [f1 u1]. cbn [s_fs s_undo with_fs] in *. subst f1.
+    fold (undo_shape f u p u1) in U1. specialize (NEW p u1 U1).
+    destruct (mk_parent_dirs f (mk_tgt [] p)) as [f2 [e|]] eqn:MK;
+      apply mk_parent_dirs_spec in MK; try exact W; destruct MK as [W2 E2].
+    { intros H; inversion H; subst. cbn [s_fs s_undo]. split; [exact W2|]. split; [apply ext_dirs; exact E2|exact NEW]. }
+    destruct (os_write f2 (mk_tgt [] p) content) as [f3|e] eqn:WR.
+    2:{ intros H; inversion H; subst. cbn [s_fs s_undo]. split; [exact W2|]. split; [apply ext_dirs; exact E2|exact NEW]. }
+    intros H; inversion H; subst. cbn [s_fs s_undo].
+    apply os_write_ok in WR. destruct WR as [[_ [_ [_ KN]]] [PD2 [L2 ->]]].
+    split; [apply wf_set_file; assumption|]. split; [|exact NEW].
+    eapply dirs_le_trans; [apply ext_dirs; exact E2|apply dirs_le_set_file; assumption].
+  - destruct (os_exists f (mk_tgt [] p)) eqn:X; cbn [negb]; [|intros H; inversion H; subst; exact TRIV].
+    destruct (record_undo [] _ p) as [s1|e] eqn:RU; [|intros H; inversion H; subst; exact TRIV].
+    apply record_undo_cases in RU. destruct RU as [F1 U1]. destruct s1 as [f1 u1]. cbn [s_fs s_undo with_fs] in *. subst f1.
+    fold (undo_shape f u p u1) in U1. specialize (NEW p u1 U1).
+    destruct (os_remove_file f (mk_tgt [] p)) as [f2|e] eqn:RM.
+    2:{ intros H; inversion H; subst. cbn [s_fs s_undo]. split; [exact W|]. split; [apply dirs_le_refl|exact NEW]. }
+    intros H; inversion H; subst. cbn [s_fs s_undo].
+    apply os_remove_ok in RM. destruct RM as [[_ [_ [_ KN]]] [PD [[b0 L0] ->]]].
+    split; [eapply wf_unset_file; eassumption|]. split; [eapply dirs_le_unset_file; eassumption|exact NEW].
+  - destruct (os_exists f (mk_tgt [] p)) eqn:X; cbn [negb]; [|intros H; inversion H; subst; exact TRIV].
+    destruct (record_undo [] _ p) as [s1|e] eqn:RU; [|intros H; inversion H; subst; exact TRIV].
+    apply record_undo_cases in RU. destruct RU as [F1 U1]. destruct s1 as [f1 u1]. cbn [s_fs s_undo with_fs] in *. subst f1.
+    fold (undo_shape f u p u1) in U1. specialize (NEW p u1 U1).
+    assert (FAIL1 : fs_wf f /\ dirs_le f f /\ exists new, u1 = u ++ new /\
+              forall raw b, In (raw, Some b) new -> ~ In (comps raw) (keys u) /\ lookup f (comps raw) = Some (File b)).
+    { split; [exact W|]. split; [apply dirs_le_refl|exact NEW]. }
+    destruct (os_read f (mk_tgt [] p)) as [b|e] eqn:RD; [|intros H; inversion H; subst; exact FAIL1].
+    destruct (utf8_ok b); cbn [negb]; [|intros H; inversion H; subst; exact FAIL1].
+    destruct (apply_hunks_to_text b hs) as [b'|]; [|intros H; inversion H; subst; exact FAIL1].
+    destruct (os_write f (mk_tgt [] p) b') as [f2|e] eqn:WR; [|intros H; inversion H; subst; exact FAIL1].
+    apply os_write_ok in WR. destruct WR as [[_ [_ [_ KN]]] [PD [L0 ->]]].
+    set (f2 := set f (comps p) (File b')) in *.
+    assert (W2 : fs_wf f2) by (apply wf_set_file; assumption).
+    assert (D2 : dirs_le f f2) by (apply dirs_le_set_file; assumption).
+    assert (OK1 : fs_wf f2 /\ dirs_le f f2 /\ exists new, u1 = u ++ new /\
+              forall raw b, In (raw, Some b) new -> ~ In (comps raw) (keys u) /\ lookup f (comps raw) = Some (File b)).
+    { split; [exact W2|]. split; [exact D2|exact NEW]. }
+    destruct mv as [q|]; [|intros H; inversion H; subst; exact OK1].
+    destruct (os_exists f2 (mk_tgt [] q)) eqn:XQ; [intros H; inversion H; subst; exact OK1|].
+    destruct (record_undo [] _ q) as [s3|e] eqn:RU3; [|intros H; inversion H; subst; exact OK1].
+    apply record_undo_cases in RU3. destruct RU3 as [F3 U3]. destruct s3 as [f3 u3]. cbn [s_fs s_undo with_fs] in *. subst f3.
+    fold (undo_shape f2 u1 q u3) in U3. pose proof (NEW2 f2 u1 q u3 NEW XQ U3) as NEW3.
+    destruct (mk_parent_dirs f2 (mk_tgt [] q)) as [f4 [e|]] eqn:MK;
+      apply mk_parent_dirs_spec in MK; try exact W2; destruct MK as [W4 E4].
+    { intros H; inversion H; subst. cbn [s_fs s_undo]. split; [exact W4|].
+      split; [eapply dirs_le_trans; [exact D2|apply ext_dirs; exact E4]|exact NEW3]. }
+    destruct (os_rename_file f4 (mk_tgt [] p) (mk_tgt [] q)) as [f5|e] eqn:RN.
+    2:{ intros H; inversion H; subst. cbn [s_fs s_undo]. split; [exact W4|].
+        split; [eapply dirs_le_trans; [exact D2|apply ext_dirs; exact E4]|exact NEW3]. }
+    intros H; inversion H; subst. cbn [s_fs s_undo].
+    apply os_rename_ok in RN. destruct RN as [_ [PDS [CLQ [PDQ [LQ [b2 [LS ->]]]]]]].
+    pose proof CLQ as [_ [_ [_ KQ]]].
+    assert (WU : fs_wf (unset f4 (comps p))) by (eapply wf_unset_file; eassumption).
+    assert (DU : dirs_le f4 (unset f4 (comps p))) by (eapply dirs_le_unset_file; eassumption).
+    assert (LQ' : lookup (unset f4 (comps p)) (comps q) <> Some Dir).
+    { rewrite lookup_unset by exact KN. destruct (path_eqb (comps p) (comps q)); [discriminate|exact LQ]. }
+    split; [apply wf_set_file; try assumption; eapply pdirs_mono; eassumption|]. split; [|exact NEW3].
+    eapply dirs_le_trans; [exact D2|]. eapply dirs_le_trans; [apply ext_dirs; exact E4|].
+    eapply dirs_le_trans; [exact DU|apply dirs_le_set_file; assumption].
+Qed.
+
+Lemma expect_notin u f p : ~ In p (keys u) -> expect u f p = file_at f p.
+Proof.
+  induction u as [|e u IH]; cbn [expect keys map In]; intros NI; [reflexivity|].
+  destruct (path_eqb (ekey e) p) eqn:E; peq; [exfalso; apply NI; left; exact E|]. apply IH. tauto.
+Qed.
+
+Lemma run_dirs f0 : fs_wf f0 -> forall ops f u s' r,
+  C f u -> (forall p, expect u f p = file_at f0 p) -> dirs_le f0 f -> somes_in f0 u ->
+  run [] {| s_fs := f; s_undo := u |} ops = (s', r) ->
+  fs_wf (s_fs s') /\ dirs_le f0 (s_fs s') /\ somes_in f0 (s_undo s').
+Proof.
+  intros W0. induction ops as [|o ops IH]; intros f u s' r HC EX D SM; cbn [run].
+  - intros H; inversion H; subst. cbn [s_fs s_undo]. destruct HC as [W _]. auto.
+  - destruct (exec [] _ o) as [s1 [e|]] eqn:E.
+    + intros H; inversion H; subst. pose proof HC as [W _].
+      destruct (exec_shape _ _ _ _ _ W E) as [W1 [D1 [new [EU HN]]]].
+      split; [exact W1|]. split; [eapply dirs_le_trans; eassumption|].
+      rewrite EU. intros raw b I. apply in_app_or in I. destruct I as [I|I]; [apply SM; exact I|].
+      destruct (HN raw b I) as [NI L].
+      specialize (EX (comps raw)). rewrite expect_notin in EX by exact NI.
+      unfold file_at in EX. rewrite L in EX.
+      destruct (lookup f0 (comps raw)) as [[b0|]|]; try discriminate. inversion EX; subst. reflexivity.
+    + pose proof HC as [W _].
+      destruct (exec_shape _ _ _ _ _ W E) as [W1 [D1 [new [EU HN]]]].
+      pose proof (exec_inv _ _ _ _ _ HC E) as [HC1 EQ1]. destruct s1 as [f1 u1]. cbn [s_fs s_undo] in *.
+      apply IH; try assumption.
+      * intros p. rewrite EQ1. apply EX.
+      * eapply dirs_le_trans; eassumption.
+      * rewrite EU. intros raw b I. apply in_app_or in I. destruct I as [I|I]; [apply SM; exact I|].
+        destruct (HN raw b I) as [NI L].
+        specialize (EX (comps raw)). rewrite expect_notin in EX by exact NI.
+        unfold file_at in EX. rewrite L in EX.
+        destruct (lookup f0 (comps raw)) as [[b0|]|]; try discriminate. inversion EX; subst. reflexivity.
+Qed.
+
+(* a failed apply leaves the workspace as it was, plus possibly directories where there was nothing *)
+Theorem apply_patch_failed_ext f input g e : fs_wf f -> apply_patch true [] f input = Failed g e -> ext f g.
+Proof.
+  intros W H. pose proof (apply_patch_atomic f input g e W H) as FA.
+  assert (D : dirs_le f g).
+  { unfold apply_patch in H. destruct (parse_patch input) as [ops|]; [|inversion H; subst; apply dirs_le_refl].
+    unfold apply_ops in H. destruct (run [] _ ops) as [s [err|]] eqn:RN; [|discriminate]. inversion H; subst.
+    destruct (run_dirs f W ops f [] s (Some e) (C_init f W) (fun p => eq_refl) (dirs_le_refl f)) as [WS [DS SS]];
+      [intros ? ? []|exact RN|].
+    apply revert_dirs; try assumption. destruct W as [_ [_ T]]. exact T. }
+  split.
+  - intros q n L. destruct n as [b|]; [|apply D; exact L].
+    specialize (FA q). unfold file_at in FA. rewrite L in FA.
+    destruct (lookup g q) as [[b'|]|]; try discriminate. inversion FA; subst. reflexivity.
+  - intros q L. specialize (FA q). unfold file_at in FA. rewrite L in FA.
+    destruct (lookup g q) as [[b'|]|]; [discriminate|right; reflexivity|left; reflexivity].
+Qed.
